@@ -19,7 +19,41 @@ var wanted = []string{"round", "roundPlaces", "floor", "ceil", "inc", "dec", "de
 
 func q(s string) string { return strconv.Quote(s) }
 
-var conversions = map[string]bool{"float64": true, "int64": true, "int": true, "time.Duration": true}
+var conversions = map[string]bool{"float64": true, "int64": true, "int": true, "time.Duration": true, "rune": true}
+
+// package-level constants of the file being translated: inlined where they are used
+var consts = map[string]ast.Expr{}
+
+func collectConsts(f *ast.File) {
+	consts = map[string]ast.Expr{}
+	for _, d := range f.Decls {
+		gd, ok := d.(*ast.GenDecl)
+		if !ok || gd.Tok != token.CONST {
+			continue
+		}
+		for _, sp := range gd.Specs {
+			vs := sp.(*ast.ValueSpec)
+			for i, n := range vs.Names {
+				if i < len(vs.Values) {
+					consts[n.Name] = vs.Values[i]
+				}
+			}
+		}
+	}
+}
+
+// selName flattens a.b.c
+func selName(e ast.Expr) string {
+	switch x := e.(type) {
+	case *ast.Ident:
+		return x.Name
+	case *ast.SelectorExpr:
+		if p := selName(x.X); p != "" {
+			return p + "." + x.Sel.Name
+		}
+	}
+	return ""
+}
 
 func copyLocals(m map[string]string) map[string]string {
 	c := map[string]string{}
@@ -46,6 +80,12 @@ func stmts(list []ast.Stmt, locals map[string]string, fset *token.FileSet) strin
 		}
 		return "(.unsupported \"assignment\")"
 	case *ast.ReturnStmt:
+		if len(s.Results) == 2 {
+			// (value, error): a non-nil error is a failure whatever the value
+			if id, ok := s.Results[1].(*ast.Ident); !ok || id.Name != "nil" {
+				return "(.fail)"
+			}
+		}
 		if len(s.Results) >= 1 {
 			return expr(s.Results[0], locals, fset)
 		}
@@ -128,12 +168,19 @@ func expr(e ast.Expr, locals map[string]string, fset *token.FileSet) string {
 		if d, ok := locals[x.Name]; ok {
 			return d
 		}
+		if c, ok := consts[x.Name]; ok {
+			return expr(c, map[string]string{}, fset)
+		}
 		return "(.var " + q(x.Name) + ")"
 	case *ast.BasicLit:
 		switch x.Kind {
 		case token.INT:
 			if n, err := strconv.ParseInt(x.Value, 0, 64); err == nil {
 				return fmt.Sprintf("(.lit %d)", n)
+			}
+		case token.CHAR:
+			if r, _, _, err := strconv.UnquoteChar(x.Value[1:len(x.Value)-1], '\''); err == nil {
+				return fmt.Sprintf("(.lit %d)", r)
 			}
 		case token.FLOAT:
 			// integral float literals (1.0, 2e0) are the same constant as the integer
@@ -168,15 +215,7 @@ func expr(e ast.Expr, locals map[string]string, fset *token.FileSet) string {
 			return "(.const " + q(p.Name+"."+x.Sel.Name) + ")"
 		}
 	case *ast.CallExpr:
-		name := ""
-		switch f := x.Fun.(type) {
-		case *ast.Ident:
-			name = f.Name
-		case *ast.SelectorExpr:
-			if p, ok := f.X.(*ast.Ident); ok {
-				name = p.Name + "." + f.Sel.Name
-			}
-		}
+		name := selName(x.Fun)
 		if conversions[name] && len(x.Args) == 1 {
 			return "(.conv " + q(name) + " " + expr(x.Args[0], locals, fset) + ")"
 		}
@@ -270,6 +309,50 @@ func main() {
 	fmt.Println("/-- secondsToDuration of command_storer.go -/")
 	fmt.Println("def durationSrc : List (String × List (String × String) × FE) := [")
 	fmt.Println(strings.Join(durs, ",\n"))
+	fmt.Println("]")
+	// internal/rng: the digit values and the accumulation step of seedToInt64, IntBetween
+	var rngRows []string
+	for _, name := range []string{"seed.go", "rng.go"} {
+		f3, err := parser.ParseFile(fset, filepath.Join(repo, "internal", "rng", name), nil, 0)
+		if err != nil {
+			fmt.Fprintln(os.Stderr, err)
+			os.Exit(1)
+		}
+		collectConsts(f3)
+		if c, ok := consts["radix"]; ok {
+			rngRows = append(rngRows, "  (\"radix\", [], "+expr(c, map[string]string{}, fset)+")")
+		}
+		for _, d := range f3.Decls {
+			fd, ok := d.(*ast.FuncDecl)
+			if !ok || fd.Body == nil {
+				continue
+			}
+			switch fd.Name.Name {
+			case "toRadix36", "IntBetween":
+				rngRows = append(rngRows, "  ("+q(fd.Name.Name)+", "+paramList(fd.Type)+", "+stmts(fd.Body.List, map[string]string{}, fset)+")")
+			case "seedToInt64":
+				// the accumulation inside the loop over the runes: `result = <step>`
+				step := "(.unsupported \"no accumulation found\")"
+				ast.Inspect(fd.Body, func(n ast.Node) bool {
+					if rs, ok := n.(*ast.RangeStmt); ok {
+						for _, st := range rs.Body.List {
+							if as, ok := st.(*ast.AssignStmt); ok && as.Tok == token.ASSIGN && len(as.Lhs) == 1 && len(as.Rhs) == 1 {
+								if id, ok := as.Lhs[0].(*ast.Ident); ok && id.Name == "result" {
+									step = expr(as.Rhs[0], map[string]string{}, fset)
+								}
+							}
+						}
+					}
+					return true
+				})
+				rngRows = append(rngRows, "  (\"seedToInt64.step\", [(\"result\", \"int64\"), (\"v\", \"int64\")], "+step+")")
+			}
+		}
+	}
+	consts = map[string]ast.Expr{}
+	fmt.Println("/-- internal/rng: radix, toRadix36, the accumulation step of seedToInt64, IntBetween -/")
+	fmt.Println("def rngSrc : List (String × List (String × String) × FE) := [")
+	fmt.Println(strings.Join(rngRows, ",\n"))
 	fmt.Println("]")
 	fmt.Println("end Ysgo.Generated")
 }
